@@ -30,6 +30,19 @@ def finalize_call(f):
     return cs[0] if len(cs) == 1 else None
 
 
+def call_arg(repo, f, call, idx):
+    """normalised text of a positional argument of ``call`` with the function's own reassignments followed back through
+    reaching definitions (`plan = plan_mutator(plan, g)` then `finalize_wrapper(plan, ...)` reads as the nested call)"""
+    if call is None or len(call.args) <= idx:
+        return None
+    g = q.cfg(f, q.quiet_policy(repo))
+    st = A.enclosing_stmt(call, A.parents(f.node))
+    ids = g.nodes_of(st) if st is not None else []
+    if not ids:
+        return A.norm(call.args[idx])
+    return A.norm(q.expand_at(g, ids[0], call.args[idx]))
+
+
 def local(repo, f, name):
     return repo.funcs.get(f"{f.module.name}:{f.qualname}.{name}")
 
@@ -124,7 +137,7 @@ def run(ctx):
     # lazily_stage_wrapper
     f = repo.func(PP, "lazily_stage_wrapper")
     fc = finalize_call(f)
-    ok = fc is not None and len(fc.args) >= 2 and A.norm(fc.args[0]) == "plan_mutator(plan, inner)" and callee_name(fc.args[1]) == "inner_unstage_all"
+    ok = fc is not None and len(fc.args) >= 2 and call_arg(repo, f, fc, 0) == "plan_mutator(plan, inner)" and callee_name(fc.args[1]) == "inner_unstage_all"
     ctx.ob("C23.D1-release-is-final-plan", cname(f, None, "finalize_wrapper(plan_mutator(plan, inner), inner_unstage_all())"), ok, "" if ok else "lazily staged devices are not unstaged by a final plan", where=where(f, f.node))
     un = local(repo, f, "inner_unstage_all")
     ok = un is not None and [A.norm(x) for x in yfs(un.node)] == ["unstage_all(*reversed(devices_staged))"]
@@ -142,7 +155,7 @@ def run(ctx):
                              ("reset_positions_wrapper", "plan_mutator(plan, insert_reads)", "reset")):
         f = repo.func(PP, wname)
         fc = finalize_call(f)
-        ok = fc is not None and len(fc.args) >= 2 and A.norm(fc.args[0]) == prot and callee_name(fc.args[1]) == rel and local(repo, f, rel) is not None
+        ok = fc is not None and len(fc.args) >= 2 and call_arg(repo, f, fc, 0) == prot and callee_name(fc.args[1]) == rel and local(repo, f, rel) is not None
         ctx.ob("C23.D1-release-is-final-plan", cname(f, None, f"finalize_wrapper({prot}, {rel}())"), ok, "" if ok else "the restore plan is not the final plan of finalize_wrapper", where=where(f, f.node))
     f = repo.func(PP, "rewindable_wrapper")
     rr, sr = local(repo, f, "restore_rewindable"), local(repo, f, "set_rewindable")
